@@ -49,6 +49,10 @@ def run(ctx: Ctx):
 
     transform_pairing_table(ctx)
     self_contained(ctx)
+    from . import c01
+
+    # table k of a 3-D response is cut out of arrays filtered by this index: its axes must stay (table, rows, columns)
+    c01.valid_idxs_single_mesh(ctx)
 
 
 _SIBLING_CONTROL = "class P:\n    def order(self):\n        return self._cube.partitions[0].order\n"
